@@ -69,9 +69,10 @@ where
            | .error e => (c2, .error e)
            | .ok res =>
              if after then
-               -- `if updated['upserted']: query = {'_id': updated['upserted']}` (truthiness)
+               -- `if updated['upserted'] is not None: query = {'_id': updated['upserted']}`
                let q := match res.upserted with
-                 | some id => if id.truthy then Val.doc [("_id", id)] else query
+                 | some .null => query
+                 | some id => Val.doc [("_id", id)]
                  | none => query
                findOneColl now c2 q proj none
              else (c2, .ok none))
@@ -94,7 +95,8 @@ where
            | .ok res =>
              if after then
                let q' := match res.upserted with
-                 | some id => if id.truthy then Val.doc [("_id", id)] else q
+                 | some .null => q
+                 | some id => Val.doc [("_id", id)]
                  | none => q
                findOneColl now c3 q' proj none
              else (c3, .ok old))
@@ -130,13 +132,12 @@ def bulkOne (cfg : Cfg) (now : Int) (c : Coll) (idx : Nat) (req : Val) : Coll ×
     | .error e => (c', if e.isWriteError then .writeErr e else .abort e)
     | .ok res =>
       (c', .ok (fun t =>
-        -- `if result.get('upserted')` (truthiness of the upserted _id)
+        -- `if result.get('upserted') is not None`
         let t := match res.upserted with
+          | some .null => { t with nMatched := t.nMatched + res.n }
           | some id =>
-            if id.truthy then
-              { t with upserted := t.upserted ++ [Val.doc [("index", Val.int idx), ("_id", id)]],
-                       nUpserted := t.nUpserted + res.n }
-            else { t with nMatched := t.nMatched + res.n }
+            { t with upserted := t.upserted ++ [Val.doc [("index", Val.int idx), ("_id", id)]],
+                     nUpserted := t.nUpserted + res.n }
           | none => { t with nMatched := t.nMatched + res.n }
         { t with nModified := t.nModified + res.nModified }))
   match req with
